@@ -379,3 +379,123 @@ def classify_union(m, d, x, strict):
     if others:
         return REJECT if (strict or inner == REJECT) else UNSPEC
     return inner
+
+
+# --------------------------------------------------------------- permissions / redaction
+
+class NoAccess(Exception):
+    """The value selects a union tag the caller has no permission for."""
+
+
+BLOT_MASK = '********'
+
+
+def redactor_of(m, anns):
+    for a in anns:
+        ad = m.find_ann(*a)
+        if ad.atype in ('RedactedBlot', 'RedactedHash'):
+            return (ad.atype, ad.args[0] if ad.args else None)
+    return None
+
+
+def apply_redactor(red, val):
+    """Reference redaction of one value: blot mask, configured regex groups, or hash."""
+    import hashlib
+    import re
+    kind_, regex = red
+    match = None
+    if regex and isinstance(val, str):
+        match = re.search(regex, val)
+    if kind_ == 'RedactedBlot':
+        if match:
+            return '***'.join(match.groups())
+        return BLOT_MASK
+    hashed = None
+    if isinstance(val, bool):
+        text = str(val)
+    elif isinstance(val, (int, float)):
+        text = str(val)
+    else:
+        text = val
+    if isinstance(text, str):
+        try:
+            hashed = hashlib.md5(text.encode('utf-8')).hexdigest()
+        except ValueError:
+            hashed = None
+    if match:
+        blotted = '***'.join(match.groups())
+        return '%s (%s)' % (hashed, blotted) if hashed else blotted
+    return hashed
+
+
+def redact_position(red, av):
+    if isinstance(av, list):
+        return [apply_redactor(red, x) for x in av]
+    if isinstance(av, dict):
+        return OrderedDict((k, apply_redactor(red, v)) for k, v in av.items())
+    return apply_redactor(red, av)
+
+
+def encode_p(m, t, av, perms, redact, item=False):
+    """Permission- and redaction-aware reference encoder."""
+    if av is None and item and redact and t is not None and t.kind == 'ref' and not t.nullable:
+        # a null item whose type is a redacted alias of a nullable type is still
+        # handed to the redactor (mask / no hash); nothing can leak from null
+        d = m.lookup(t.ns, t.name)
+        if d.kind == 'alias' and redactor_of(m, d.anns):
+            return apply_redactor(redactor_of(m, d.anns), None)
+    if t is None or (t.kind == 'prim' and t.name == 'Void') or av is None:
+        return None
+    if t.kind == 'prim':
+        return encode_prim(t, av)
+    if t.kind == 'list':
+        return [encode_p(m, t.args['item'], x, perms, redact, True) for x in av]
+    if t.kind == 'map':
+        return OrderedDict((k, encode_p(m, t.args['value'], v, perms, redact, True)) for k, v in av.items())
+    d = m.lookup(t.ns, t.name)
+    if d.kind == 'alias':
+        red = redactor_of(m, d.anns)
+        if red and redact:
+            return redact_position(red, av)
+        return encode_p(m, d.type, av, perms, redact)
+    if d.kind == 'struct':
+        out = OrderedDict()
+        vd = m.lookup(av.ns, av.name)
+        if d.subtypes:
+            out['.tag'] = [tg for tg, sn in d.subtypes['items'] if sn == (av.ns, av.name)][0]
+        pub, extra = [], []
+        for f in m.struct_all_fields(vd):
+            c = omitted_caller(m, f)
+            if c is None:
+                pub.append(f)
+            elif c in perms:
+                extra.append((perms.index(c), f))
+        for f in pub + [f for _, f in sorted(extra, key=lambda x: x[0])]:
+            v = av.fields.get(f.name)
+            if v is None:
+                continue
+            red = redactor_of(m, f.anns)
+            if red and redact:
+                out[f.name] = redact_position(red, v)
+            else:
+                out[f.name] = encode_p(m, f.type, v, perms, redact)
+        return out
+    f = [x for x in m.union_all_fields(m.lookup(av.ns, av.name)) if x.name == av.tag][0]
+    c = omitted_caller(m, f) if not getattr(f, 'implicit', False) else None
+    if c is not None and c not in perms:
+        raise NoAccess(av.tag)
+    out = OrderedDict([('.tag', av.tag)])
+    if f.type is None or av.value is None:
+        return out
+    red = redactor_of(m, f.anns)
+    if red and redact:
+        enc = redact_position(red, av.value)
+        out[av.tag] = enc
+        return out
+    enc = encode_p(m, f.type, av.value, perms, redact)
+    tgt = m.target(f.type)
+    if tgt is not None and tgt.kind == 'struct' and not tgt.subtypes:
+        out.update(enc)
+    else:
+        out[av.tag] = enc
+    return out
